@@ -1136,7 +1136,15 @@ class Machine:
                 f = get_path(f.cell.val, f.path)
             if isinstance(f, ClosureV):
                 tup = args[1]
-                return self.enter(st, fr, f.path, [], [args[0]] + list(tup.elems), dest_lv, t, span)
+                cb = self.facts.body(f.path)
+                by_ref = bool(cb) and cb["locals"][1]["ty"].get("k") == "ref"
+                selfarg = args[0]
+                if by_ref and not isinstance(selfarg, Ref):
+                    selfarg = Ref(Cell(selfarg), (), True)
+                if not by_ref and isinstance(selfarg, Ref):
+                    selfarg = f          # FnOnce-style body takes the closure by value
+                targs = list(tup.elems) if isinstance(tup, Tup) else ([] if tup is UNIT else [tup])
+                return self.enter(st, fr, f.path, [], [selfarg] + targs, dest_lv, t, span)
             if isinstance(f, FnVal) and self.facts.body(f.path) is not None:
                 tup = args[1]
                 return self.enter(st, fr, f.path, [], list(tup.elems), dest_lv, t, span)
